@@ -108,13 +108,14 @@ theorem latency_grows_while_behind (R : Run) :
   simp only [recOf, sampleOf, tupleOf, lateness, hr]
   linarith
 
-/-- **one_sample_per_request.**  The samples correspond one-to-one, in order, to the requests that
-    reached the endpoint (the wire log) — except for one last request when the executor raised — and
+/-- **one_sample_per_request.**  The samples correspond one-to-one, in order, to the runner calls whose
+    wire requests reached the endpoint (`R.f.out.wire`: per call the endpoint's log of that call) —
+    except for one last call when the executor raised — and
     to the tuples the schedule yielded; each sample carries its client id, the sample type of its
     tuple and the instant its request was issued; the drained queue holds exactly the first
     `queue capacity` of them (drops only when the queue is full). -/
 theorem one_sample_per_request (R : Run) :
-    R.f.out.recs.map (fun r => (r.reqStart, r.reqEnd)) = R.f.out.wire.take R.f.out.recs.length ∧
+    R.f.out.recs.map (·.wires) = R.f.out.wire.take R.f.out.recs.length ∧
     R.f.out.wire.length = R.f.out.recs.length + raisedCount R.f.out.stop ∧
     R.f.out.recs.map (·.tup) = R.f.out.tuples.take R.f.out.recs.length ∧
     R.f.out.tuples.length = R.f.out.recs.length + unsampledTuples R.f.out.stop ∧
@@ -129,6 +130,49 @@ theorem one_sample_per_request (R : Run) :
   apply R.recs_forall
   intro st q ops unit m sched'
   simp [recOf, sampleOf, R.exact]
+
+/-- **service_spans_wire_requests.**  A logical request may consist of several wire requests, grouped in
+    nested request contexts of any depth (composite operations), any of which may fail.  For every sample:
+    the runner call sent at least one wire request; `request_start` is the instant the *first* of them was
+    sent and `request_end` the instant the *last* response was received — the response of a failing wire
+    request included, wherever it sits — so service time is exactly that span (and latency ends there). -/
+theorem service_spans_wire_requests (R : Run) :
+    ∀ rec ∈ R.f.out.recs, ∃ first last,
+      rec.wires.head? = some first ∧ rec.wires.getLast? = some last ∧
+      rec.reqStart = first.1 ∧ rec.reqEnd = last.2 ∧ rec.sample.service = last.2 - first.1 ∧
+      (∀ w ∈ rec.wires, rec.procStart ≤ w.1 ∧ w.1 ≤ w.2 ∧ w.2 ≤ rec.procEnd) := by
+  obtain ⟨tp, sched, _, _, _, _, hout, _⟩ := R.inv
+  have hr := R.exact
+  rw [hout]
+  refine go_recs_forall (c := R.c) (fun _ => True) (fun _ => True) _ ?_ R.reqs _ trivial (fun _ _ => trivial)
+  intro st q rec st' _ _ _ hs
+  obtain ⟨ops, unit, m, sched', _, _, _, hrec, _⟩ := step_sampled_inv hs
+  obtain ⟨first, last, h1, h2, h3, h4⟩ := stamps_span hr st q (step_sampled_stamps hs)
+  subst hrec
+  refine ⟨⟨first, last, h1, h2, h3, h4, by simp [recOf, sampleOf, hr, h3, h4], ?_⟩, trivial⟩
+  intro w hw
+  have hb := (progOf_inv hr st q).bounds w hw
+  exact ⟨hb.1, hb.2.1, le_trans hb.2.2 (progNow_le_procEnd hr st q)⟩
+
+/-- **nested_contexts_transparent.**  Clock, endpoint log and the executor's request context after a runner
+    call are those of the same wire requests issued directly in the executor's context: opening and leaving
+    nested request contexts — also by an exception — never loses or shifts a timestamp. -/
+theorem nested_contexts_transparent (c : Cfg) (hr : ∀ x, c.r x = x) (st : St) (q : Req) :
+    reqCtxOf c st q = reqCtxOf c st { q with prog := flat q.prog } ∧
+    (progOf c st q).log = (progOf c st { q with prog := flat q.prog }).log ∧
+    (progOf c st q).now = (progOf c st { q with prog := flat q.prog }).now :=
+  reqCtx_flat hr st q
+
+/-- **sampler_exactly_once_under_preemption.**  `Sampler.add` (evaluate the queue's bound `put_nowait`, build
+    the `Sample`, call) interleaved in any way with drains by the worker thread (`Sampler.samples`), for every
+    capacity and every sequence of events: every sample handed to the queue is, exactly once, in one of the
+    drained batches, still in the queue, or a reported queue-full drop (`List.Perm` = same multiset). -/
+theorem sampler_exactly_once_under_preemption {α : Type} (cap : Nat) (es : List (SEv α)) :
+    List.Perm ((srun cap es (SState.init α)).batches.flatten ++
+      (srun cap es (SState.init α)).queues.getD (srun cap es (SState.init α)).cur [] ++
+      (srun cap es (SState.init α)).dropped) (calls es) := by
+  have h := srun_content cap es (SState.init α) ⟨rfl, rfl, [], rfl⟩
+  simpa [SState.content, SState.init] using h
 
 /-- on-error=abort: a failed request never yields a sample (`execute_single` raises instead) -/
 theorem abort_policy (o : Outcome) (ops : Nat) (unit : Str) (m : Meta)
@@ -165,7 +209,8 @@ theorem abort_raises (R : Run) :
       (∀ cause, R.f.out.stop = .raised cause →
         R.f.out.wire.length = R.f.out.recs.length + 1 ∧ R.f.out.tuples.length = R.f.out.recs.length + 1 ∧
         ∃ q rest', rest = q :: rest' ∧
-          (executeSingle R.c.abort q.out = .raise cause ∨ cause = .unitMismatch ∨ cause = .zeroDivision)) := by
+          (executeSingle R.c.abort q.out = .raise cause ∨ cause = .unitMismatch ∨ cause = .zeroDivision ∨
+            cause = .noTimestamps)) := by
   obtain ⟨tp, sched, _, _, _, _, hout, _⟩ := R.inv
   obtain ⟨rest, h1, h2, h3⟩ := go_consumed R.c R.reqs (R.st0 sched)
   have ⟨_, _, h5, h6⟩ := go_shape R.c R.reqs (R.st0 sched)
@@ -207,5 +252,37 @@ example : demoRun.f.out.recs.map (fun r => (r.sample.service, r.sample.latency, 
 /-- on-error=abort: the executor raises on the third request, two samples, three wire requests -/
 example : demoAbort.f.out.stop = .raised .assertion ∧ demoAbort.f.out.recs.length = 2 ∧ demoAbort.f.out.wire.length = 3 := by
   decide +kernel
+
+/-! ## non-vacuity: composite requests (two wire requests, each in its own nested request context) at 1 ops/s,
+    on-error=continue: plain / second wire request fails / far slower than the interval / first wire request fails / plain -/
+
+def compReq (a b : Rat) (fa fb : Bool) (out : Outcome) : Req :=
+  { gen := 0, prog := [.enter, .wire 0 a fa, .exit, .enter, .wire 0 b fb, .exit], post := 0, draw := 0, out := out,
+    rc := none, rp := none, sp := none }
+
+def compOk : Outcome := .dict (some 1) (some opsUnit) none none none
+
+def demoComposite : Run :=
+  Run.ofInputs { demoCfg with clients := 1, t0 := 0 } (fun _ => rfl) { demoTask with warmupIt := some 0, iters := some 5, clients := 1 }
+    (.int 1) .none 0 1 true 100
+    [compReq (3 / 10) (2 / 10) false false compOk, compReq (3 / 10) (4 / 10) false true (.apiErr 500),
+     compReq (15 / 10) (2 / 10) false false compOk, compReq (2 / 10) (1 / 10) true false (.apiErr 503),
+     compReq (1 / 10) (1 / 10) false false compOk] (by decide +kernel)
+
+/-- five samples; the failing wire requests' responses are inside the service time (0.7 = 0.3 + 0.4; 0.2 for the failing first one) -/
+example : demoComposite.f.out.stop = .loopDone ∧
+    demoComposite.f.out.recs.map (fun r => (r.tup.sched, r.reqStart, r.reqEnd, r.sample.service, r.sample.latency, r.sample.success)) =
+      [(0, 0, 1 / 2, 1 / 2, 1 / 2, true), (1, 1, 17 / 10, 7 / 10, 7 / 10, false), (2, 2, 37 / 10, 17 / 10, 17 / 10, true),
+       (3, 37 / 10, 39 / 10, 1 / 5, 9 / 10, false), (4, 4, 21 / 5, 1 / 5, 1 / 5, true)] := by decide +kernel
+example : demoComposite.f.out.recs.map (fun r => r.wires.length) = [2, 2, 2, 1, 2] := by decide +kernel
+/-- a runner call that sends nothing leaves the request context unstamped: the executor raises, no sample -/
+example : (Run.ofInputs demoCfg (fun _ => rfl) demoTask .none .none 0 2 true 100
+    [{ okReq (1 / 4) with prog := [.enter, .exit] }] (by decide +kernel)).f.out.stop = .raised .noTimestamps := by decide +kernel
+/-- capacity 2, the worker drains between the evaluation of `put_nowait` and the call of the second add: nothing is lost,
+    the fourth sample is a reported drop -/
+example : (srun 2 [SEv.evalPut, .build, .call 0, .evalPut, .drain, .build, .call 1, .evalPut, .build, .call 2,
+      .evalPut, .build, .call 3, .drain] (SState.init Nat)).batches = [[0], [1, 2]] ∧
+    (srun 2 [SEv.evalPut, .build, .call 0, .evalPut, .drain, .build, .call 1, .evalPut, .build, .call 2,
+      .evalPut, .build, .call 3, .drain] (SState.init Nat)).dropped = [3] := by decide
 
 end C04
